@@ -1901,7 +1901,8 @@ fn convert_claims(c: &Claims, pk: PayloadKind) -> Option<Claims> {
             if bytes.starts_with(payloads::PROBE_FAIL_MARK) { None } else { Some(Claims::Probe(bytes)) }
         }
         PayloadKind::Json => serde_json::from_slice(&bytes).ok().map(Claims::Json),
-        PayloadKind::Reg => None,
+        // a foreign issuer's JSON read as registered claims, when the text leaves no room for interpretation
+        PayloadKind::Reg => crate::codec::reg_from_json_strict(&bytes).map(Claims::Reg),
         PayloadKind::RawC => Some(Claims::RawC(bytes)),
         PayloadKind::Typed => serde_json::from_slice(&bytes).ok().map(|t| Claims::Typed(Box::new(t))),
     }
